@@ -13,6 +13,7 @@ import (
 	"os"
 	"path/filepath"
 	"sort"
+	"strconv"
 	"strings"
 
 	"github.com/EliCDavis/polyform/formats/obj"
@@ -605,6 +606,64 @@ func (g *c05Gram) face() {
 var c05Malformed = []string{"v 1 2", "v 1", "v", "vn 0 1", "vt 1", "f 1 2", "f 1", "f", "usemtl", "g", "mtllib", "v a 2 3", "v 1 2 z",
 	"vt x 1", "f 1/x 2 3", "f 1/ 1 1", "f 0 1 1", "f 1 -1 1", "f 1/2/ 1 1", "f x", "v 1e40 0 0", "vn 1 2 0x10", "g  ", "usemtl\t"}
 
+// face lines whose index tokens probe strconv.Atoi (sign, range, junk) and the "/" / "//" splitting
+var c05IntFaceLines = []string{"f 9223372036854775807 2 3", "f 9223372036854775808 2 3", "f -9223372036854775808 2 3",
+	"f -9223372036854775809 2 3", "f +1 +2 +3", "f 1//+1 2//1 3//1", "f 1_0 2 3", "f 0x1 2 3", "f 1/-9223372036854775808 2/1 3/1",
+	"f 1//-9223372036854775808 2//1 3//1", "f 1/99999999999999999999 2 3", "f 001 002 003", "f 1///2 2 3", "f 1//1//x 2//1 3//1",
+	"f 1/1/1/9 2/1 3/1", "f / 2 3", "f 1/ 2 3", "f /1 2 3", "f // 2 3", "f 1// 2// 3//", "f 1//1/ 2//1 3//1", "f 1/1// 2 3", "f -0 1 2",
+	"f 1/-0/1 2/1/1 3/1/1", "f 1/+1/+1 2/1/1 3/1/1", "f 1/1/1 2/1/1 3/1/00000000000000000000001", "f 1/1/18446744073709551617 2 3",
+	"f ١ 2 3", "f 1//1/1 2 3", "f 1/2//3 1 1", "f - 1 1", "f + 1 1", "f 1/+ 1 1", "f 1//- 1 1"}
+
+// strconv.Itoa / strconv.Atoi against the model functions ObjText.showInt / ObjText.parseInt, directly
+func (c *Ctx) c05IntOps() {
+	ints := []int{0, 1, -1, 9, -9, 10, -10, 99, 100, -100, 4096, 65536, 1000000, 1<<31 - 1, -1 << 31, 1 << 32, 1<<63 - 1, -1 << 63, 1<<63 - 2, -1<<63 + 1,
+		999999999999999999, 1000000000000000000, -999999999999999999}
+	for k := 0; k < 40; k++ {
+		ints = append(ints, int(int64(c.Rng.Uint64())>>uint(c.Rng.Intn(64))))
+	}
+	for _, n := range ints {
+		s := strconv.Itoa(n)
+		c.Emit("c05.itoa", fmt.Sprint(n), hx([]byte(s)))
+		back, err := strconv.Atoi(s)
+		if err != nil || back != n {
+			c.Emit("c05.holds.itoa_atoi", hx([]byte(s)), "false")
+		}
+		c.Note("int.itoa")
+	}
+	strs := []string{"9223372036854775807", "9223372036854775808", "-9223372036854775808", "-9223372036854775809", "+9223372036854775807",
+		"+9223372036854775808", "+1", "-0", "+0", "+", "-", "", "1_0", "0x1", "0b1", "0o7", " 1", "1 ", "１２", "12a", "a12", "1-2", "--1", "+-1", "-+1", "++1",
+		"007", "-007", "00000000000000000000000000000000000012", "123456789012345678901234567890", "-123456789012345678901234567890", "1e3", "1.0", "1/2", "/"}
+	for k := 0; k < 40; k++ {
+		var b strings.Builder
+		switch c.Rng.Intn(4) {
+		case 0:
+			b.WriteByte('-')
+		case 1:
+			b.WriteByte('+')
+		}
+		nd := 1 + c.Rng.Intn(24)
+		if c.Rng.Intn(3) == 0 {
+			nd = 17 + c.Rng.Intn(4) // around the int64 boundary (19 digits)
+		}
+		for i := 0; i < nd; i++ {
+			b.WriteByte(byte('0' + c.Rng.Intn(10)))
+		}
+		if c.Rng.Intn(8) == 0 {
+			b.WriteByte("_x/ +-"[c.Rng.Intn(6)])
+		}
+		strs = append(strs, b.String())
+	}
+	for _, s := range strs {
+		n, err := strconv.Atoi(s)
+		ans := "err"
+		if err == nil {
+			ans = "ok " + fmt.Sprint(n)
+		}
+		c.Emit("c05.atoi", hx([]byte(s)), ans)
+		c.Note("int.atoi." + ans[:2])
+	}
+}
+
 func (c *Ctx) c05Text() (string, bool) {
 	g := &c05Gram{c: c, crlf: c.Rng.Intn(6) == 0, mixForms: c.Rng.Intn(10) == 0}
 	if c.Rng.Intn(6) == 0 {
@@ -1052,6 +1111,13 @@ func runC05(c *Ctx) {
 		rans, _ := c05Read([]byte("v 0 0 0\nv 1 0 0\nv 0 1 0\nvt 0 0\nvn 0 0 1\nf 1 2 3\n" + t + "\nf 3 2 1\n"))
 		c.Emit("c05.read", hx([]byte("v 0 0 0\nv 1 0 0\nv 0 1 0\nvt 0 0\nvn 0 0 1\nf 1 2 3\n"+t+"\nf 3 2 1\n")), rans)
 	}
+	// integer tokens at the int64 boundaries and in every sign / separator shape: ties ObjText.parseCorner / parseInt
+	for _, t := range c05IntFaceLines {
+		text := []byte("v 0 0 0\nv 1 0 0\nv 0 1 0\nvt 0 0\nvn 0 0 1\nf 1 2 3\n" + t + "\nf 3 2 1\n")
+		rans, _ := c05Read(text)
+		c.Emit("c05.read", hx(text), rans)
+	}
+	c.c05IntOps()
 	for k := 0; k < c.N; k++ {
 		c.c05SceneCase(c05Opts{}, "c05.holds.roundtrip")
 		c.c05TextCase()
